@@ -29,10 +29,10 @@ class HarnessError(Exception):
 def build(profile='dev', quiet=True):
     """(Re)build the harness against /repo's *current working tree* with hooks on."""
     env = dict(os.environ)
-    env['RUSTFLAGS'] = '--cfg truth_verif'
+    env['RUSTFLAGS'] = '--cfg truth_verif' + (' ' + os.environ['VERIF_RUSTFLAGS_EXTRA'] if os.environ.get('VERIF_RUSTFLAGS_EXTRA') else '')   # (extra flags: development only, e.g. -Cinstrument-coverage)
     env['CARGO_NET_OFFLINE'] = 'true'
     env['CARGO_TARGET_DIR'] = TARGET
-    cmd = ['cargo', 'build', '--offline', '--bins']
+    cmd = ['cargo'] + os.environ.get('VERIF_CARGO_TOOLCHAIN', '').split() + ['build', '--offline', '--bins']
     if profile == 'release':
         cmd.append('--release')
     t0 = time.time()
